@@ -21,6 +21,15 @@
     C08-F5  signature: INNER join on a DATE / BOOLEAN key; the limited run returns no row at all (keys read as NULL) — exact mirror
     C08-F6  signature: GROUP BY over a key holding NULLs (the aggregation path chosen under the limit groups NULL keys differently: C21-F2/F4);
             neutraliser: the statement restricted to rows without NULL keys is right under the same limit
+
+  kind "agg-spill" (strata spill_distinct / spill_union / spill_cdist / spill_groups: aggregations that reach the partition-and-spill path, keys with 10-50 % NULLs):
+    impl.spilled = {cfg: the engine created its spill directory during that run} → tags part:yes / part:no / part+same (a run that partitioned AND returned
+    the unlimited answer).  The limited runs are ALWAYS compared with the unlimited run, also when the unlimited run is itself not the reference answer
+    (tags base:nullsplit = the unlimited answer is the reference answer with groups of NULL-holding keys split into several rows, C21-F2; base:wrong = anything
+    else); K is judged only if the unlimited run is right.  A limited answer that differs is attributed to C08-F6 only by its exact shape (`nullRefines`):
+    the rows whose key has no NULL are exactly the reference's, and re-aggregating the answer by its key columns (COUNT/SUM → SUM, MIN → MIN, MAX → MAX; no
+    aggregates: DISTINCT) gives exactly the reference answer — i.e. groups of NULL-holding keys may be SPLIT, but no input row is lost, duplicated or moved.
+    DISTINCT aggregates cannot be recombined: there any difference is a violation.
 -/
 import Driver.SqlCore
 open Lean IQE IQE.Spec Driver.SqlJson Driver.SQL
@@ -59,6 +68,42 @@ def sortSpine : Query → Option (Nat × Option Nat × List SortKey × Query)
   | .sort keys q => some (0, none, keys, q)
   | _ => none
 
+/-- key width and aggregate list of an agg-spill statement (output row = keys ++ aggregates) -/
+def spillShape : Query → Option (Nat × List AggCall)
+  | .distinct (.project _ es _) => some (es.length, [])
+  | .setop .union false (.project _ es _) _ => some (es.length, [])
+  | .agg keys aggs _ => some (keys.length, aggs)
+  | _ => none
+
+/-- the statement that puts split groups back together, over the answer registered as table `tbl` -/
+def recombinePlan (nk : Nat) (aggs : List AggCall) (tbl : Nat) : Option Query := do
+  let aggs' ← aggs.zipIdx.mapM fun ((a, i) : AggCall × Nat) =>
+    if a.distinct then (none : Option AggCall) else
+    match a.fn with
+    | .countStar | .count | .sum => some { fn := .sum, arg := .col (nk + i) }
+    | .min => some { fn := .min, arg := .col (nk + i) }
+    | .max => some { fn := .max, arg := .col (nk + i) }
+    | .avg => none
+  pure (.agg ((List.range nk).map Expr.col) aggs' (.scan tbl))
+
+/-- `t` is the reference answer `ref` up to splitting of groups whose key holds a NULL (see the header) -/
+def nullRefines (c : Case) (ref t : Table) : Bool :=
+  match spillShape c.plan with
+  | none => false
+  | some (nk, aggs) =>
+    let nullFree (x : Table) : Table := x.filter fun r => (r.take nk).all fun v => match v with | .null => false | _ => true
+    match recombinePlan nk aggs c.tables.length with
+    | none => false
+    | some rp =>
+      match Spec.run fo fns (c.tables ++ [t]) rp [] [] with
+      | .ok back => Spec.bagEq (nullFree t) (nullFree ref) && Spec.bagEq (normTable back) ref
+      | .error _ => false
+
+def spilledOf (i : Json) : List (String × Bool) :=
+  match i.getObjVal? "spilled" with
+  | .ok (.obj kv) => kv.toList.filterMap fun (k, v) => match v with | .bool b => some (k, b) | _ => none
+  | _ => []
+
 def handler : Driver.Handler := fun cj i => do
   let c ← caseOfJson cj
   let runs ← runsOf i "runs"
@@ -78,9 +123,13 @@ def handler : Driver.Handler := fun cj i => do
     pure { model := specJson spec, k := true, oracle := p.head?.map (fun x => s!"engine panicked under {x}"), nt := false, tags := baseTags ++ [s!"base:err:{kd}"] }
   | some (.ok b) =>
     let baseOk := match spec with | .ok _ => acceptableB c c.plan b | .error _ => true
-    if !baseOk then
+    let spillKind := kind == "agg-spill"
+    let refines (t : Table) : Bool := match spec with | .ok ref => nullRefines c ref t | .error _ => false
+    if !baseOk && !spillKind then
       pure { model := specJson spec, k := true, oracle := none, nt := false, tags := baseTags ++ ["base:wrong"] }
     else
+      let baseTag := if baseOk then "base:right" else if refines b then "base:nullsplit" else "base:wrong"
+      let spilled := spilledOf i
       -- judge every limited configuration
       let judged : List (String × String × Option String × Option String) := limited.map fun (cfg, o) =>
         match o with
@@ -119,6 +168,7 @@ def handler : Driver.Handler := fun cj i => do
                   else none
               | none =>
                 if kind == "join" && stratum == "join_f5" && t.isEmpty && !b.isEmpty then some "C08-F5"
+                else if spillKind then (if refines t then some "C08-F6" else none)
                 else if kind == "agg" && stratum == "agg_nullkeys" then
                   -- C08-F6: signature = a group key holds NULLs; neutraliser = the statement over the rows without NULL keys is right under the same limit
                   let nplan : Option Query := match cj.getObjVal? "neutral_plan" with
@@ -130,8 +180,13 @@ def handler : Driver.Handler := fun cj i => do
                 else none
             (cfg, "different", some s!"answer under {cfg} differs from the unlimited answer: {diffSummary t b}", attr)
       let fails := judged.filter (fun j => j.2.2.1.isSome)
-      let tags := baseTags ++ judged.map (fun j => s!"lim:{j.2.1}") ++ ["base:right"]
-      let kOk := limited.all fun (_, o) => match o with
+      let partTags : List String := if !spillKind then [] else
+        let took (cfg : String) : Bool := (spilled.find? (·.1 == cfg)).map (·.2) |>.getD false
+        (if limited.any (fun r => took r.1) then ["part:yes"] else []) ++
+        (if limited.any (fun r => !took r.1) then ["part:no"] else []) ++
+        (if judged.any (fun j => j.2.1 == "same" && took j.1) then ["part+same"] else [])
+      let tags := baseTags ++ judged.map (fun j => s!"lim:{j.2.1}") ++ [baseTag] ++ partTags
+      let kOk := !baseOk || limited.all fun (_, o) => match o with
         | .ok t => acceptableB c c.plan t
         | .err _ => true
         | .panic _ => false
